@@ -90,7 +90,7 @@ def augment(h, n):
         elif e["op"] == "discard":
             live.discard(i)
     for i in sorted(live):
-        for d in ("D2", "D1"):
+        for d in ("D2", "D1", "D4"):
             out.append({"op": "parse", "i": i, "api": "render", "doc": d, "env": "omitted"})
     return out
 
